@@ -190,46 +190,26 @@ theorem escape_identShape {n : Name} (h : identShape n = true) : identShape (esc
   · exact identShape_append_underscore h
   · exact h
 
-/-- every documented keyword followed by `_` is an ordinary identifier for `syn` -/
+/-- every keyword of the table followed by `_` is an ordinary identifier for `syn` -/
 theorem escaped_keyword_not_rejected : ∀ k ∈ escapeTable, synReject.contains (k ++ ['_']) = false := by
   decide
 
-/-- the identifiers `syn` rejects that `escaped_rust_name` does not know about -/
-def unescapedReserved : List Name := synReject.filter fun k => !escapeTable.contains k
+/-- the table knows everything `syn` refuses as an identifier -/
+theorem synReject_subset_escapeTable : ∀ k ∈ synReject, escapeTable.contains k = true := by decide
 
-theorem unescapedReserved_eq : unescapedReserved =
-    [['_'], "abstract".toList, "become".toList, "box".toList, "do".toList, "final".toList, "macro".toList,
-     "override".toList, "priv".toList, "typeof".toList, "unsized".toList, "virtual".toList,
-     "yield".toList] := by decide
-
-theorem synReject_cover {n : Name} (h : synReject.contains n = true) :
-    escapeTable.contains n = true ∨ unescapedReserved.contains n = true := by
-  cases he : escapeTable.contains n with
-  | true => exact Or.inl rfl
-  | false =>
-    right
-    simp only [unescapedReserved, List.contains_iff_mem, List.mem_filter] at h ⊢
-    refine ⟨h, ?_⟩
-    have hne : ¬ n ∈ escapeTable := fun hm => by
-      have := List.contains_iff_mem.mpr hm
-      rw [he] at this; cases this
-    simpa using hne
-
-/-- After escaping, a name is rejected by `syn` only if it is one of the reserved words the table lacks. -/
-theorem escape_not_rejected {n : Name} (h : unescapedReserved.contains n = false) :
-    synReject.contains (escapedRustName n) = false := by
+/-- After escaping, no name is rejected by `syn`. -/
+theorem escape_not_rejected (n : Name) : synReject.contains (escapedRustName n) = false := by
   rcases escape_cases n with ⟨hc, e⟩ | ⟨hc, e⟩ <;> rw [e]
   · exact escaped_keyword_not_rejected n (by simpa using hc)
   · cases hs : synReject.contains n with
     | false => rfl
     | true =>
-      rcases synReject_cover hs with h1 | h1
-      · rw [hc] at h1; cases h1
-      · rw [h] at h1; cases h1
+      have := synReject_subset_escapeTable n (by simpa using hs)
+      rw [hc] at this; cases this
 
 /-! ### The conflict checks -/
 
-theorem lookup_none_iff {seen : List (Name × Name)} {k : Name} :
+theorem lookup_none_iff {seen : List (Key × Name)} {k : Key} :
     seen.lookup k = none ↔ k ∉ seen.map Prod.fst := by
   induction seen with
   | nil => simp
@@ -244,22 +224,23 @@ theorem lookup_none_iff {seen : List (Name × Name)} {k : Name} :
       have : k ≠ a := by simpa using hka
       simp [this, ih]
 
-theorem findConflict_none_iff (seen : List (Name × Name)) (l : List Name) :
-    findConflict seen l = none ↔
-      (∀ n ∈ l, conflictKey n ∉ seen.map Prod.fst) ∧ (l.map conflictKey).Nodup := by
+theorem findDup_none_iff (seen l : List (Key × Name)) :
+    findDup seen l = none ↔
+      (∀ p ∈ l, p.1 ∉ seen.map Prod.fst) ∧ (l.map Prod.fst).Nodup := by
   induction l generalizing seen with
-  | nil => simp [findConflict]
-  | cons n rest ih =>
-    unfold findConflict
-    cases hl : seen.lookup (conflictKey n) with
+  | nil => simp [findDup]
+  | cons p rest ih =>
+    obtain ⟨k, n⟩ := p
+    unfold findDup
+    cases hl : seen.lookup k with
     | some v =>
-      have : ¬ (conflictKey n ∉ seen.map Prod.fst) := by
+      have : ¬ (k ∉ seen.map Prod.fst) := by
         intro hn
         have := lookup_none_iff.mpr hn
         rw [hl] at this; cases this
       simp only [reduceCtorEq, false_iff]
       intro ⟨h, _⟩
-      exact this (h n (by simp))
+      exact this (h (k, n) (by simp))
     | none =>
       have hn := lookup_none_iff.mp hl
       rw [ih]
@@ -281,10 +262,20 @@ theorem findConflict_none_iff (seen : List (Name × Name)) (l : List Name) :
         · exact h2 (List.mem_map.mpr ⟨m, hm, hc⟩)
         · exact h1 m (Or.inr hm) hc
 
-/-- A check passes exactly when the mangled names it inserts are pairwise distinct. -/
-theorem findConflict_nil_none_iff (l : List Name) :
-    findConflict [] l = none ↔ (l.map conflictKey).Nodup := by
-  simp [findConflict_none_iff]
+theorem keyed_map_fst (keys : Name → List Key) (l : List Name) :
+    (keyed keys l).map Prod.fst = l.flatMap keys := by
+  induction l with
+  | nil => rfl
+  | cons x xs ih =>
+    simp only [keyed, List.flatMap_cons, List.map_append, List.map_map] at ih ⊢
+    rw [ih]
+    congr 1
+    simp [Function.comp_def]
+
+/-- A check passes exactly when the keys it inserts are pairwise distinct. -/
+theorem findDup_nil_none_iff (keys : Name → List Key) (l : List Name) :
+    findDup [] (keyed keys l) = none ↔ (l.flatMap keys).Nodup := by
+  simp [findDup_none_iff, keyed_map_fst]
 
 theorem insertSorted_perm {α : Type} (key : α → Name) (x : α) (l : List α) :
     (insertSorted key x l).Perm (x :: l) := by
@@ -303,11 +294,47 @@ theorem sortBy_perm {α : Type} (key : α → Name) (l : List α) : (sortBy key 
     unfold sortBy
     exact (insertSorted_perm key x _).trans (List.Perm.cons x ih)
 
+
+theorem perm_flatMap {α β : Type} {l₁ l₂ : List α} (f : α → List β) (h : l₁.Perm l₂) :
+    (l₁.flatMap f).Perm (l₂.flatMap f) := by
+  induction h with
+  | nil => exact List.Perm.refl _
+  | cons x _ ih => simpa [List.flatMap_cons] using List.Perm.append_left _ ih
+  | swap x y l =>
+    simp only [List.flatMap_cons, ← List.append_assoc]
+    exact List.Perm.append_right _ List.perm_append_comm
+  | trans _ _ ih1 ih2 => exact ih1.trans ih2
+
+theorem flatMap_fieldKeys (l : List Name) :
+    l.flatMap fieldKeys = l.map fun n => ((0, conflictKey n) : Key) := by
+  induction l with
+  | nil => rfl
+  | cons x xs ih => simp [List.flatMap_cons, fieldKeys, ih]
+
+theorem nodup_map_pair_iff (t : Nat) (l : List Name) :
+    (l.map fun n => ((t, n) : Key)).Nodup ↔ l.Nodup := by
+  induction l with
+  | nil => simp
+  | cons x xs ih =>
+    simp only [List.map_cons, List.nodup_cons, ih, List.mem_map, Prod.mk.injEq, true_and, exists_eq_right]
+
 theorem vertexConflict_none_iff (S : Schema) :
-    vertexConflict S = none ↔ (S.types.map fun t => conflictKey t.name).Nodup := by
+    vertexConflict S = none ↔ ((S.types.map (·.name)).flatMap vertexKeys).Nodup := by
   unfold vertexConflict
-  rw [findConflict_nil_none_iff]
-  have hp := (sortBy_perm id (S.types.map (·.name))).map conflictKey
+  rw [findDup_nil_none_iff]
+  exact (perm_flatMap vertexKeys (sortBy_perm id (S.types.map (·.name)))).nodup_iff
+
+theorem fieldKeys_nodup_iff (l : List Name) : (l.flatMap fieldKeys).Nodup ↔ (l.map conflictKey).Nodup := by
+  rw [flatMap_fieldKeys]
+  have : (l.map fun n => ((0, conflictKey n) : Key)) = (l.map conflictKey).map fun k => ((0, k) : Key) := by
+    simp [List.map_map, Function.comp_def]
+  rw [this, nodup_map_pair_iff]
+
+theorem entrypointConflict_none_iff (S : Schema) :
+    entrypointConflict S = none ↔ (S.entrypoints.map fun e => conflictKey e.name).Nodup := by
+  unfold entrypointConflict
+  rw [findDup_nil_none_iff, fieldKeys_nodup_iff]
+  have hp := (sortBy_perm id (S.entrypoints.map (·.name))).map conflictKey
   rw [hp.nodup_iff, List.map_map]
   rfl
 
@@ -319,27 +346,47 @@ theorem fieldConflict_none_iff (S : Schema) :
   constructor
   · intro h t ht
     have := h t (hp.mem_iff.mpr ht)
-    rw [← findConflict_nil_none_iff]
-    cases hf : findConflict [] (fieldNames t) with
+    rw [← fieldKeys_nodup_iff, ← findDup_nil_none_iff]
+    cases hf : findDup [] (keyed fieldKeys (fieldNames t)) with
     | none => rfl
     | some p => obtain ⟨a, b⟩ := p; simp [hf] at this
   · intro h t ht
-    have := (findConflict_nil_none_iff _).mpr (h t (hp.mem_iff.mp ht))
+    have := (findDup_nil_none_iff fieldKeys _).mpr ((fieldKeys_nodup_iff _).mpr (h t (hp.mem_iff.mp ht)))
     simp [this]
+
+/-- the keys of one kind among the vertex keys -/
+theorem vertexKeys_components {l : List Name} (h : (l.flatMap vertexKeys).Nodup) :
+    (l.map conflictKey).Nodup ∧ (l.map variantName).Nodup ∧ (l.map conversionCallName).Nodup := by
+  induction l with
+  | nil => simp
+  | cons x xs ih =>
+    rw [List.flatMap_cons, List.nodup_append] at h
+    obtain ⟨_, hxs, hdisj⟩ := h
+    obtain ⟨i1, i2, i3⟩ := ih hxs
+    have hmem : ∀ (t : Nat) (f : Name → Name), (∀ n, ((t, f n) : Key) ∈ vertexKeys n) →
+        f x ∉ xs.map f := by
+      intro t f hf hm
+      obtain ⟨y, hy, hxy⟩ := List.mem_map.mp hm
+      have h1 : ((t, f x) : Key) ∈ vertexKeys x := hf x
+      have h2 : ((t, f x) : Key) ∈ xs.flatMap vertexKeys := by
+        rw [← hxy]; exact List.mem_flatMap.mpr ⟨y, hy, hf y⟩
+      exact hdisj _ h1 _ h2 rfl
+    simp only [List.map_cons, List.nodup_cons]
+    exact ⟨⟨hmem 0 conflictKey (by intro n; simp [vertexKeys]), i1⟩,
+      ⟨hmem 1 variantName (by intro n; simp [vertexKeys]), i2⟩,
+      ⟨hmem 2 conversionCallName (by intro n; simp [vertexKeys]), i3⟩⟩
 
 theorem checksPass_iff (S : Schema) :
     checksPass S = true ↔
-      (S.types.map fun t => conflictKey t.name).Nodup ∧
-      ∀ t ∈ S.types, ((fieldNames t).map conflictKey).Nodup := by
+      ((S.types.map (·.name)).flatMap vertexKeys).Nodup ∧
+      (∀ t ∈ S.types, ((fieldNames t).map conflictKey).Nodup) ∧
+      (S.entrypoints.map fun e => conflictKey e.name).Nodup := by
   unfold checksPass
-  rw [Bool.and_eq_true, Option.isNone_iff_eq_none, Option.isNone_iff_eq_none,
-    vertexConflict_none_iff, fieldConflict_none_iff]
+  rw [Bool.and_eq_true, Bool.and_eq_true, Option.isNone_iff_eq_none, Option.isNone_iff_eq_none,
+    Option.isNone_iff_eq_none, vertexConflict_none_iff, fieldConflict_none_iff, entrypointConflict_none_iff,
+    and_assoc]
 
 /-! ### Injectivity of the derived names -/
-
-theorem escape_snake_injective_on_keys {a b : Name}
-    (h : toLowerSnakeCase a = toLowerSnakeCase b) : conflictKey a = conflictKey b := by
-  simp [conflictKey, h]
 
 theorem nodup_map_of_nodup_map {α : Type} {f g : α → Name} {l : List α}
     (hfg : ∀ x y, g x = g y → f x = f y) (h : (l.map f).Nodup) : (l.map g).Nodup := by
@@ -392,39 +439,28 @@ theorem nodupB_iff (l : List Name) : nodupB l = true ↔ l.Nodup := by
     · rintro ⟨h1, h2⟩
       exact ⟨by simpa using h1, h2⟩
 
-/-! ### stubgen's snake case vs. the derive macro's -/
 
-/-- no capital letter directly follows a capital letter -/
-def noConsecutiveCapitals : Name → Bool
-  | a :: b :: rest => !(isUpper a && isUpper b) && noConsecutiveCapitals (b :: rest)
-  | _ => true
+/-! ### `variant_conversion_fn_name` is the derive macro's rule -/
 
-theorem snakeGo_eq_deriveSnakeGo (last : Char) (n : Name)
-    (h : noConsecutiveCapitals (last :: n) = true) : snakeGo last n = deriveSnakeGo last n := by
+theorem conversionGo_eq_deriveSnakeGo (last : Char) (n : Name) : conversionGo last n = deriveSnakeGo last n := by
   induction n generalizing last with
-  | nil => simp [snakeGo, deriveSnakeGo]
+  | nil => simp [conversionGo, deriveSnakeGo]
+  | cons d ds ih => unfold conversionGo deriveSnakeGo; rw [ih d]
+
+theorem conversionGo_all_continue (last : Char) (n : Name) (h : n.all isIdentContinue = true) :
+    (conversionGo last n).all isIdentContinue = true := by
+  induction n generalizing last with
+  | nil => simp [conversionGo]
   | cons d ds ih =>
-    simp only [noConsecutiveCapitals, Bool.and_eq_true, Bool.not_eq_true', Bool.and_eq_false_iff] at h
-    unfold snakeGo deriveSnakeGo
-    rw [ih d h.2]
+    simp only [List.all_cons, Bool.and_eq_true] at h
+    unfold conversionGo
     split
     · rename_i hd
-      have hl : isUpper last = false := by
-        rcases h.1 with h1 | h1
-        · exact h1
-        · rw [hd] at h1; cases h1
-      simp [hl]
-    · rfl
-
-/-- On names without two consecutive capitals both snake-case functions agree. -/
-theorem snake_eq_deriveSnake {n : Name} (h : noConsecutiveCapitals n = true) :
-    toLowerSnakeCase n = deriveSnake n := by
-  apply snakeGo_eq_deriveSnakeGo
-  cases n with
-  | nil => rfl
-  | cons d ds =>
-    simp only [noConsecutiveCapitals, Bool.and_eq_true, Bool.not_eq_true', Bool.and_eq_false_iff]
-    exact ⟨Or.inl (by decide), h⟩
+      simp only [List.all_append, List.all_cons, Bool.and_eq_true]
+      refine ⟨?_, isIdentContinue_of_start (isIdentStart_toLower_of_upper hd), ih d h.2⟩
+      split <;> simp [isIdentContinue_underscore]
+    · simp only [List.all_cons, Bool.and_eq_true]
+      exact ⟨h.1, ih d h.2⟩
 
 /-! ### Lemmas used by `Props/C26` -/
 
@@ -476,152 +512,12 @@ theorem variant_identShape {n : Name} (h : validGraphQLName n = true) : identSha
 
 theorem synReject_no_as_prefix : ∀ k ∈ synReject, k.take 3 ≠ "as_".toList := by decide
 
-theorem unescapedReserved_heads :
-    unescapedReserved.all (fun k => k == ['_'] || (match k with | c :: _ => isLower c | [] => false)) = true := by
-  decide
 
 theorem wrap_injective {pre suf x y : Name} (h : pre ++ x ++ suf = pre ++ y ++ suf) : x = y :=
   List.append_cancel_left (List.append_cancel_right h)
 
 theorem snake_eq_of_key_ne {a b : Name} : toLowerSnakeCase a = toLowerSnakeCase b → conflictKey a = conflictKey b :=
   fun h => by simp [conflictKey, h]
-
-/-- the character after the first one is not a capital letter -/
-def secondNotUpper : Name → Bool
-  | _ :: d :: _ => !isUpper d
-  | _ => true
-
-theorem escape_eq_cases {x y : Name} (h : escapedRustName x = escapedRustName y) :
-    x = y ∨ (escapeTable.contains x = true ∧ y = x ++ ['_']) ∨
-      (escapeTable.contains y = true ∧ x = y ++ ['_']) := by
-  rcases escape_cases x with ⟨hx, ex⟩ | ⟨hx, ex⟩ <;> rcases escape_cases y with ⟨hy, ey⟩ | ⟨hy, ey⟩ <;>
-    rw [ex, ey] at h
-  · exact Or.inl (List.append_cancel_right h)
-  · exact Or.inr (Or.inl ⟨hx, h.symm⟩)
-  · exact Or.inr (Or.inr ⟨hy, h⟩)
-  · exact Or.inl h
-
-theorem escapeTable_heads :
-    escapeTable.all (fun k => (match k with | c :: _ => isLower c | [] => false)
-      || k == "Self".toList || k == "'static".toList) = true := by decide
-
-/-- first output character of `to_lower_snake_case` -/
-def firstOut (c : Char) : Char := if isUpper c then toLower c else c
-
-theorem snake_cons (c : Char) (r : Name) : toLowerSnakeCase (c :: r) = firstOut c :: snakeGo c r := by
-  show snakeGo '_' (c :: r) = _
-  rw [snakeGo]
-  have : (('_' : Char) != '_' && !isUpper '_') = false := by decide
-  simp only [this, firstOut]
-  split <;> simp
-
-theorem firstOut_eq_of_upper_eq {c1 c2 : Char} (h : toAsciiUpper c1 = toAsciiUpper c2) :
-    firstOut c1 = firstOut c2 := by
-  apply eq_of_toNat_eq
-  have hn := congrArg Char.toNat h
-  cases h1 : isLower c1 <;> cases h2 : isLower c2
-  · rw [toAsciiUpper_of_not_lower h1, toAsciiUpper_of_not_lower h2] at h
-    rw [h]
-  · rw [toAsciiUpper_of_not_lower h1, toNat_toAsciiUpper_of_lower h2] at hn
-    have hl := (isLower_iff c2).mp h2
-    have hu : isUpper c1 = true := by rw [isUpper_iff]; omega
-    simp only [firstOut, hu, if_true, not_upper_of_lower h2, Bool.false_eq_true, if_false]
-    rw [toNat_toLower_of_upper hu]; omega
-  · rw [toNat_toAsciiUpper_of_lower h1, toAsciiUpper_of_not_lower h2] at hn
-    have hl := (isLower_iff c1).mp h1
-    have hu : isUpper c2 = true := by rw [isUpper_iff]; omega
-    simp only [firstOut, hu, if_true, not_upper_of_lower h1, Bool.false_eq_true, if_false]
-    rw [toNat_toLower_of_upper hu]; omega
-  · rw [toNat_toAsciiUpper_of_lower h1, toNat_toAsciiUpper_of_lower h2] at hn
-    have hl1 := (isLower_iff c1).mp h1
-    have hl2 := (isLower_iff c2).mp h2
-    simp only [firstOut, not_upper_of_lower h1, not_upper_of_lower h2, Bool.false_eq_true, if_false]
-    omega
-
-theorem snakeGo_indep_of_last {r : Name} (c1 c2 : Char)
-    (h : (match r with | d :: _ => !isUpper d | [] => true) = true) : snakeGo c1 r = snakeGo c2 r := by
-  cases r with
-  | nil => simp [snakeGo]
-  | cons d r' =>
-    have hd : isUpper d = false := by simpa using h
-    unfold snakeGo
-    simp [hd]
-
-theorem key_self : conflictKey "Self".toList = "self_".toList ∧ conflictKey "self".toList = "self_".toList ∧
-    conflictKey "Self_".toList = "self_".toList ∧ conflictKey "self_".toList = "self_".toList := by decide
-
-/-- a name whose capitalised form is `Self` / `Self_` -/
-theorem upper_eq_Self {c : Char} {r : Name} (h : toAsciiUpper c :: r = 'S' :: r) :
-    c = 'S' ∨ c = 's' := by
-  have hc : toAsciiUpper c = 'S' := (List.cons.inj h).1
-  cases hl : isLower c with
-  | false => rw [toAsciiUpper_of_not_lower hl] at hc; exact Or.inl hc
-  | true =>
-    right
-    apply eq_of_toNat_eq
-    have h2 := toNat_toAsciiUpper_of_lower hl
-    have h3 := (isLower_iff c).mp hl
-    rw [hc] at h2
-    have : ('S' : Char).toNat = 83 := by decide
-    have : ('s' : Char).toNat = 115 := by decide
-    omega
-
-/-- Two valid names with equal variants have equal check keys, provided their second characters are not
-capitals. -/
-theorem key_eq_of_variant_eq {a b : Name} (ha : validGraphQLName a = true) (hb : validGraphQLName b = true)
-    (ga : secondNotUpper a = true) (gb : secondNotUpper b = true)
-    (h : variantName a = variantName b) : conflictKey a = conflictKey b := by
-  cases a with
-  | nil => simp [validGraphQLName, identShape] at ha
-  | cons c1 r1 =>
-  cases b with
-  | nil => simp [validGraphQLName, identShape] at hb
-  | cons c2 r2 =>
-  simp only [variantName, upperCaseVariantName] at h
-  simp only [validGraphQLName, identShape, Bool.and_eq_true] at ha hb
-  -- a keyword of the table whose first character is a capitalised identifier start is `Self`
-  have selfOnly : ∀ (c : Char) (r : Name), isIdentStart c = true →
-      escapeTable.contains (toAsciiUpper c :: r) = true → toAsciiUpper c :: r = "Self".toList := by
-    intro c r hc hm
-    have hm' : (toAsciiUpper c :: r) ∈ escapeTable := by simpa using hm
-    have := List.all_eq_true.mp escapeTable_heads _ hm'
-    simp only [Bool.or_eq_true, beq_iff_eq] at this
-    rcases this with (h1 | h1) | h1
-    · rw [isLower_toAsciiUpper] at h1; cases h1
-    · exact h1
-    · -- `'static`: its first character is not an identifier start
-      exfalso
-      have hq : toAsciiUpper c = '\'' := (List.cons.inj h1).1
-      have hs := isIdentStart_toAsciiUpper hc
-      rw [hq] at hs
-      exact absurd hs (by decide)
-  -- the two names in the `Self` / `Self_` situation have the same key
-  have selfCase : ∀ (c d : Char) (r s : Name), toAsciiUpper c :: r = "Self".toList →
-      toAsciiUpper d :: s = "Self".toList ++ ['_'] → conflictKey (c :: r) = conflictKey (d :: s) := by
-    intro c d r s h1 h2
-    have hr : r = "elf".toList := (List.cons.inj h1).2
-    have hs : s = "elf_".toList := (List.cons.inj h2).2
-    have hc := upper_eq_Self (c := c) (r := r) (by rw [h1, hr]; rfl)
-    have hd := upper_eq_Self (c := d) (r := s) (by rw [h2, hs]; rfl)
-    subst hr hs
-    rcases hc with rfl | rfl <;> rcases hd with rfl | rfl <;> decide
-  rcases escape_eq_cases h with heq | ⟨hm, heq⟩ | ⟨hm, heq⟩
-  · -- same capitalised name: the names differ at most in the case of their first letter
-    obtain ⟨hc, hr⟩ := List.cons.inj heq
-    subst hr
-    apply snake_eq_of_key_ne
-    rw [snake_cons, snake_cons, firstOut_eq_of_upper_eq hc]
-    congr 1
-    apply snakeGo_indep_of_last
-    cases r1 with
-    | nil => rfl
-    | cons d r' => simpa [secondNotUpper] using ga
-  · have hs := selfOnly c1 r1 ha.1 hm
-    rw [hs] at heq
-    exact selfCase c1 c2 r1 r2 hs heq
-  · have hs := selfOnly c2 r2 hb.1 hm
-    rw [hs] at heq
-    exact (selfCase c2 c1 r2 r1 hs heq).symm
 
 
 end TF.Stubgen
